@@ -43,3 +43,5 @@ for bn in (0, 2, 3):
     OBS.append(Ob(['C08', 'C07'], 'mp_bin_api_n%d' % bn, 'doc', 'harness/doc_ser.c', 'h_bin', defs=['BN=%d' % bn], unwind=10, desc='doc.set(MsgPackBinary(p,%d)); serializeMsgPack / as<MsgPackBinary>(): bin8 header, payload verbatim, read back identical' % bn, bound='all payload bytes', **dict(K3, hunwind=20)))
     OBS.append(Ob(['C08'], 'mp_ext_api_n%d' % bn, 'doc', 'harness/doc_ser.c', 'h_ext', defs=['BN=%d' % bn], unwind=10, desc='doc.set(MsgPackExtension(type,p,%d)); serializeMsgPack: fixext / ext8 header, type byte, payload verbatim' % bn, bound='all type and payload bytes', **dict(K3, hunwind=20)))
 OBS.append(Ob(['C02'], 'ser_pretty', 'doc', 'harness/doc_ser.c', 'h_pretty', unwind=12, desc='serializeJsonPretty([i,["s"],[]], buf, cap) and measureJsonPretty: exact layout (CRLF, 2-space indentation, [] for empty), count/prefix/guard/NUL for every capacity', bound='i in -128..127, the string byte (all 256 values), capacity 0..length+2', **dict(K3, hunwind=76)))
+for eq in (0,):   # the equal case (shared node) gave no verdict; sharing is decided by the dedup_* obligations
+    OBS.append(Ob(['C14', 'C06'], 'shared_strings_%s' % ('equal' if eq else 'different'), 'doc', 'harness/doc_hist.c', 'h_shared_strings', defs=['EQ=%d' % eq], unwind=8, desc='add s, add t (copied, %s), remove(0): survivor intact; equal strings stored once; block released when the last user goes; all blocks returned' % ('equal strings' if eq else 'different strings'), bound='second byte(s) symbolic, first byte fixes equal/different', **H))
